@@ -232,6 +232,36 @@ Definition to_sign2 (kv t : Z) (name v : bytes) : bytes :=
   [50; 124] ++ field (dec_Z kv) ++ [124] ++ field (dec_Z t) ++ [124]
   ++ field name ++ [124] ++ field (b64encode v) ++ [124].
 
+(* ------------------------------------------------------------------ *)
+(* arguments as the Python API takes them: str (code points) or bytes; escape.utf8() *)
+Inductive pyarg := PStr (cps : list N) | PBytes (b : bytes).
+
+Definition utf8_cp (c : N) : bytes :=
+  if c <? 128 then [c]
+  else if c <? 2048 then [192 + c / 64; 128 + c mod 64]
+  else if c <? 65536 then [224 + c / 4096; 128 + (c / 64) mod 64; 128 + c mod 64]
+  else [240 + c / 262144; 128 + (c / 4096) mod 64; 128 + (c / 64) mod 64; 128 + c mod 64].
+
+Definition utf8 (a : pyarg) : bytes :=
+  match a with PStr cps => flat_map utf8_cp cps | PBytes b => b end.
+
+(* cookie_secret as configured: a str/bytes, or a dict {key_version: str/bytes} *)
+Inductive secret_arg := SAStr (k : pyarg) | SADict (d : list (Z * pyarg)).
+Definition secret_of (sa : secret_arg) : secret :=
+  match sa with
+  | SAStr k => SStr (utf8 k)
+  | SADict d => SDict (map (fun p => (fst p, utf8 (snd p))) d)
+  end.
+
+(* get_signature_key_version on bytes *)
+Definition key_version_of (x : bytes) : option Z :=
+  if (get_version x <? 2)%Z then None
+  else match decode_fields x with
+       | Some (kv, _, _, _, _) => Some kv
+       | None => None
+       end.
+Definition get_signature_key_version (x : pyarg) : option Z := key_version_of (utf8 x).
+
 Section WithMac.
   Variable mac1 : bytes -> bytes -> bytes.   (* key, message -> hex HMAC-SHA1 *)
   Variable mac2 : bytes -> bytes -> bytes.   (* key, message -> hex HMAC-SHA256 *)
@@ -313,6 +343,18 @@ Section WithMac.
              else if (v =? 2)%Z then Ok (decode_v2 s name x maxage now)
              else Ok None
          end.
+
+  (* the public functions with their Python argument types *)
+  Definition create_api (sa : secret_arg) (name value : pyarg) (ver t : Z) (kv : option Z) : res bytes :=
+    create (secret_of sa) (utf8 name) (utf8 value) ver t kv.
+
+  (* value may be None (a missing cookie) *)
+  Definition decode_api (sa : secret_arg) (name : pyarg) (x : option pyarg) (maxage now minv : Z)
+    : res (option bytes) :=
+    match x with
+    | None => if (2 <? minv)%Z then Raise ValueError else Ok None
+    | Some xa => decode (secret_of sa) (utf8 name) (utf8 xa) maxage now minv
+    end.
 
   (* the (at most one) HMAC evaluation decode performs: (true = SHA1, key, message) *)
   Definition decode_query (s : secret) (name x : bytes) (minv : Z) : option (bool * bytes * bytes) :=
